@@ -452,6 +452,12 @@ func (s *MergeExp) BindingPath(bindPath string,
 			arr.Value[i] = iv
 		}
 		return &arr, s.wrapError(errs.If())
+	case ModeNullMapCall:
+		// The call was mapped over null: like an empty array or map, it
+		// has no forks to merge.
+		return &NullExp{
+			valExp: valExp{Node: *v.getNode()},
+		}, s.wrapError(err)
 	default:
 		panic("invalid merge kind " + src.CallMode().String())
 	}
